@@ -729,6 +729,7 @@ func runC05(r *Report, tier string) {
 
 	c05Buckets(r, "R05.5")
 	checkValidatorExhaustive(r, "R05.5")
+	checkValuePredicateKinds(r, "R05.5")
 	c05BstrNil(r, isTF)
 	checkCountersigValuePredicate(r, "R05.7")
 }
